@@ -152,7 +152,7 @@ LOW_RATES = [1000, 2000, 8000, 8000, 11025, 16000, 22050, 44100]
 
 
 def _cases():
-    kw = dict(orders=(3, 4, 5, 6), allow_l2="gabor")
+    kw = dict(orders=(3, 4, 5, 6, 7, 8, 9, 10), allow_l2="gabor")
     banks = st.one_of(
         bank_specs(kinds=KINDS, rates=LOW_RATES, max_filts=12, **kw),
         narrowed_specs(KINDS, max_filts=24, rates=LOW_RATES, **kw),
